@@ -187,6 +187,11 @@ SEM = {1: (100 * NS_, 1100 * NS_, 10 ** 6, 50000, 1), 2: (100000 * NS_, 101000 *
 ERR = {1: 9 * 10 ** 5, 2: 4995 * 10 ** 6 + 9 * 10 ** 5, 3: 9 * 10 ** 5}     # realtime minus true time around each publication
 
 
+def rng_free(a, b, k):
+    """a split point that depends on the placement only (no random state: replays are exact)"""
+    return 1 + (a + b + k) % 4
+
+
 def concurrent_part(res):
     """a client call overlapping a publication: every placement of one snapshot() into one update of the
     real writer (the schedules of C02), the cells it returns read as the publications above, the interval
@@ -208,6 +213,15 @@ def concurrent_part(res):
                 for d in range(1, 9, 2 if res.tier == "quick" else 1):
                     scheds.append([("W",)] * 11 + [("N",)] + [("W",)] * a + [("R", 0, None)] * b + [("W",)] * c2 + [("R", 0, None)] * d
                                   + [("W",)] * (11 - a - c2) + [("R", 0, None)] * 40)      # ... exactly to the end of this update
+    # the daemon dies in the middle of publication 2 (the client holds publication 1), a new daemon starts over the
+    # segment and publishes; the client's call overlaps that publication at every point
+    R = ("R", 0, None)
+    for k in (3, 6, 9):
+        head = [("W",)] * 11 + [("N",)] + [R] * 13 + [("W",)] * k + [("C",), ("S",)]
+        for a in range(0, 11, 3 if res.tier == "quick" else 1):
+            scheds.append(head + [("W",)] * a + [R] * 40 + [("W",)] * 11 + [R] * 13)
+            for b in (2, 5, 9):
+                scheds.append(head + [("W",)] * a + [R] * b + [("W",)] * rng_free(a, b, k) + [R] * 40 + [("W",)] * 11 + [R] * 13)
     outs = c.run_lines_hang_aware(binary, [_shm.line_of(nominal, sc) for sc in scheds], "hang")
     calls, lines = [], []
     for sc, o in zip(scheds, outs):
